@@ -9,7 +9,9 @@ AREA = "c20"
 LEAN_PROPS = "Litep2pVerif.Props.C20"
 THEOREMS = ["cid_self_certifying", "malformed_dropped", "prefix_roundtrip", "batches_partition",
             "batch_size_bound_partial", "batch_size_bound", "fitting_blocks_sent_once", "batch_oversize_witness",
-            "presence_within_limit", "blocks_sent_regardless_of_presences"]
+            "presence_within_limit", "blocks_sent_regardless_of_presences",
+            "response_delivered_or_dropped_whole", "cached_failure_requeues_whole",
+            "fresh_substream_runs_queue_in_order", "queue_untouched_by_other_events"]
 CONSTS = ["MAX_MESSAGE_SIZE", "MAX_BATCH_SIZE", "MAX_BATCH_BLOCKS"]
 _CFG = "src/protocol/libp2p/bitswap/config.rs"
 CONST_TABLE = [
@@ -28,8 +30,18 @@ MANIFEST = {
             "every mix of presences and blocks send_response returns Ok, writes an optional presence message followed "
             "by exactly the messages of the block-only response, every message within MAX_MESSAGE_SIZE; an oversized "
             "presence list is skipped as a whole - the code's actual behaviour - and never prevents blocks from being "
-            "sent); plus a seeded correspondence run of the real functions (send_response over an in-memory yamux "
-            "substream with the codec of the real Config, on_message_received on a real Bitswap instance) against the "
+            "sent); the protocol level (Model/Bitswap/Proto.lean: the struct's maps outbound / pending_outbound / "
+            "pending_substreams / pending_dials / inbound, every handler of the event loop, open_substream_or_dial, "
+            "the far end of every outbound substream with a write failure at any message index): "
+            "response_delivered_or_dropped_whole (in every history each send_request/send_response call is for an action "
+            "exactly as handed over and writes the first messages of its complete sequence - a retry restarts the "
+            "response), cached_failure_requeues_whole, fresh_substream_runs_queue_in_order, "
+            "queue_untouched_by_other_events (a queued response is dropped only by dial failure, open failure, closed "
+            "connection, failed open after the dial, a failed call on the fresh substream, or when no substream can be "
+            "had); plus a seeded correspondence run of the real functions (send_response over an in-memory yamux "
+            "substream with the codec of the real Config, on_message_received on a real Bitswap instance; the real Bitswap::run() loop with its BitswapHandle and a "
+            "real TransportService, the harness playing connections, dials, substream opens/failures, inbound "
+            "messages and the far ends of the substreams) against the "
             "model and a property-level oracle that recomputes digests with hashlib.",
     "note": "Trusted: Lean kernel; axioms propext/Classical.choice/Quot.sound; the hand-written models and their tie "
             "(sampled differential runs through adapter src/verif/c20.rs); hash functions, prost, cid, multihash, "
@@ -51,16 +63,34 @@ RULE = ("seeded cases of 4-9 operations: prefix_enc/prefix_dec (boundary values,
         "MAX_MESSAGE_SIZE, that count + 1, 104000, 105000, 120000, 262144 — the two boundary counts are corpus cases of "
         "every run) run on the real code and on the Lean model; "
         "a case is non-trivial if it has a delivered and a dropped block or a response split into >= 2 messages; "
+        "every fifth case (fourth in the thorough tier) is a protocol-level dialogue on the real event loop: responses "
+        "and requests over a cached substream that fails or stalls at every message index, over a fresh one, after a "
+        "dial, with dial failures, open failures, closed connections, dead command channels, manager-view races, "
+        "queued actions behind a retry, inbound want-lists of every shape (valid v0/v1 CIDs, truncated at any offset, "
+        "trailing bytes, bad versions, want types 0..2^31-1), inbound blocks and presences, undecodable / oversized / "
+        "closed / reset inbound substreams; "
         "distinct = distinct (ops, observations) transcripts by SHA-256")
 TRUSTED_BASE = ["Lean 4.33 kernel", "axioms: propext, Classical.choice, Quot.sound only",
-                "hand-written models Model/Bitswap/{Prefix,Batch}.lean tied to bitswap/mod.rs by this correspondence run",
-                "adapter /repo/src/verif/c20.rs, harness, verif.py, checks/c20.py",
+                "hand-written models Model/Bitswap/{Prefix,Batch,Proto}.lean tied to bitswap/mod.rs by this correspondence run",
+                "adapters /repo/src/verif/c20.rs and c20_proto.rs (one hook line in Bitswap::run publishing the maps), "
+                "harness, verif.py, checks/c20.py",
+                "protocol level: tokio (paused clock), TransportService, the mpsc channels and Substream::send_framed are "
+                "run for real; the transport manager, the connections and the far ends of the substreams are played by "
+                "the adapter",
                 "hash functions are parameters of the theorems; in the correspondence run digests come from Python "
                 "hashlib (sha2, sha3, blake2b) and a pure-Python Keccak checked against hashlib's SHA-3",
                 "prost encoding modelled by its length formula only; cid/multihash/unsigned-varint/yamux as black boxes "
                 "(unsigned-varint's u64 decode/encode loops are modelled exactly)"]
-ASSUMPTIONS = ["the only write error is the codec's rejection of a frame above its limit (modelled; send_response aborts "
-               "the whole response on any write error or timeout); no timeout, the peer keeps reading",
+ASSUMPTIONS = ["batching ops: the only write error is the codec's rejection of a frame above its limit (modelled; "
+               "send_response aborts the whole response on any write error or timeout); protocol-level ops: a substream "
+               "accepts a chosen number of complete messages and then fails (at most two bytes into the next message) or "
+               "stalls until WRITE_TIMEOUT; a failure never corrupts an accepted message",
+               "protocol level: events are handled one operation at a time (run to quiescence); an inbound message is "
+               "either prost-decodable or not (inbad uses payloads that are not); want types are non-negative",
+               "oracle, protocol level: 'sent exactly once and in order' is judged per substream (a retry after a write "
+               "failure re-sends the whole response over the next substream: at-least-once on the wire, which the "
+               "property does not exclude); a response that reaches no substream completely must be explained by an "
+               "injected failure or an outstanding open / dial",
                "Code::try_from(c) followed by .code() returns c (multihash-derive)",
                "usize is 64 bits; sums of block sizes do not overflow",
                "oracle: the node's hash set is within {sha1, sha2, sha3, keccak, blake2b, blake2s, md5}; a block delivered "
